@@ -21,6 +21,28 @@ def flips(mac):
     return out
 
 
+def multi_flips(mac, rng):
+    """forgeries that differ from the right authenticator in two or more places: equal XOR deltas at every pair of byte
+    positions (they cancel in a folded / word-wise comparison), swapped words, a shifted copy, and random tags"""
+    out = []
+    n = len(mac)
+    for i in range(n):
+        for j in range(i + 1, n):
+            for d in (0x01, 0x80):
+                m = bytearray(mac); m[i] ^= d; m[j] ^= d
+                out.append(bytes(m))
+    for w in (4, 8):
+        m = bytearray(mac)
+        for i in range(0, n, w):
+            m[i] ^= 0x55
+        out.append(bytes(m))
+        out.append(mac[w:] + mac[:w])
+    out.append(mac[1:] + mac[:1])
+    out.append(bytes(b ^ 0xff for b in mac))
+    out += [rbytes(rng, n) for _ in range(8)]
+    return [m for m in out if m != mac]
+
+
 def poly_corner_cases(rng, n):
     """messages whose accumulator lands on chosen residues: solve c = T·r⁻¹ − h (mod p) for the last block."""
     cases = []
@@ -78,6 +100,9 @@ def gen(rng, tier):
         cs.append(Case("poly1305_verify %s %s %s" % (hx(key), hx(msg), hx(mac)), cls="poly1305_verify/good", expect="ok"))
         for f in flips(mac):
             cs.append(Case("poly1305_verify %s %s %s" % (hx(key), hx(msg), hx(f)), cls="poly1305_verify/flip", expect="err"))
+        if n in (0, 17, 33):
+            for f in multi_flips(mac, rng):
+                cs.append(Case("poly1305_verify %s %s %s" % (hx(key), hx(msg), hx(f)), cls="poly1305_verify/multi-flip", expect="err"))
     # ---------------- increment
     for n in range(0, 13):
         for v in ([b"\x00" * n, b"\xff" * n, rbytes(rng, n)] + [b"\xff" * k + rbytes(rng, n - k) for k in range(1, n)]):
@@ -95,6 +120,9 @@ def gen(rng, tier):
         cs.append(Case("auth_verify %s %s %s" % (hx(key), hx(msg), hx(mac)), cls="auth_verify/good", expect="ok"))
         for f in flips(mac):
             cs.append(Case("auth_verify %s %s %s" % (hx(key), hx(msg), hx(f)), cls="auth_verify/flip", expect="err"))
+        if n in (0, 128):
+            for f in multi_flips(mac, rng):
+                cs.append(Case("auth_verify %s %s %s" % (hx(key), hx(msg), hx(f)), cls="auth_verify/multi-flip", expect="err"))
     # ---------------- BLAKE2b generic hash: every digest length × key lengths × message lengths
     keylens = [0, 16, 17, 31, 32, 33, 48, 63, 64]
     msglens = [0, 1, 63, 64, 127, 128, 129, 255, 256, 257, 300]
